@@ -12,6 +12,7 @@ import StathamModel.SerJson
 import StathamModel.Orderer
 import StathamModel.Py.Repr
 import StathamModel.Format
+import StathamModel.Inherit
 open Lean (Json)
 open Statham Statham.Codec
 
@@ -42,6 +43,56 @@ def getTables (req : Json) : R Tables :=
 def getArgs (req : Json) : R (List Arg) := do
   let a ← (← req.getObjVal? "args").getArr?
   a.toList.mapM decArg
+
+
+/-- class keyword arguments: an `Object` dump carrying the values + the list of keywords that are passed -/
+def decClassArgs (j : Json) : R ClassArgs := do
+  let e ← decElem (← j.getObjVal? "elem")
+  let passed ← (← (← j.getObjVal? "passed").getArr?).toList.mapM (·.getStr?)
+  let has (n : String) : Bool := passed.contains n
+  let kw := e.kw
+  pure { default := if has "default" then kw.default else none
+         const := if has "const" then kw.const else none
+         enum := if has "enum" then kw.enum else none
+         required := if has "required" then kw.required else none
+         description := if has "description" then kw.description else none
+         minProperties := if has "minProperties" then kw.minProperties else none
+         maxProperties := if has "maxProperties" then kw.maxProperties else none
+         patProps := if has "patternProperties" then some e.patProps else none
+         addProps := if has "additionalProperties" then
+             (match e.addProps with | some x => some (AddP.elem x) | none => some (AddP.flag kw.addPropsB)) else none
+         propNames := if has "propertyNames" then e.propNames else none
+         deps := if has "dependencies" then some e.deps else none }
+
+def decCell (j : Json) : R Cell := do
+  let required ← match getField j "required" with
+    | some b => b.getBool?
+    | none => pure false
+  let source ← optField j "source" (·.getStr?)
+  pure { required := required, source := source, elem := ← decElem (← j.getObjVal? "elem") }
+
+def decInheritOp (j : Json) : R Op := do
+  let kind ← (← j.getObjVal? "op").getStr?
+  let cls : R Nat := do (← j.getObjVal? "cls").getNat?
+  let name : R String := do (← j.getObjVal? "name").getStr?
+  match kind with
+  | "define" => do
+    let props ← (← (← j.getObjVal? "props").getArr?).toList.mapM fun kv => do
+      let p ← kv.getArr?
+      if p.size != 2 then throw "bad property entry"
+      pure (← p[0]!.getStr?, ← decCell p[1]!)
+    pure (.define (← (← j.getObjVal? "parent").getNat?)
+      { name := ← name, args := ← decClassArgs (← j.getObjVal? "args"), doc := ← optField j "doc" (·.getStr?), props := props })
+  | "set_kw" => do pure (.setKw (← cls) (← decClassArgs (← j.getObjVal? "args")))
+  | "set_prop" => do pure (.setProp (← cls) (← name) (← decCell (← j.getObjVal? "prop")))
+  | "del_prop" => do pure (.delProp (← cls) (← name))
+  | "set_required" => do pure (.setRequired (← cls) (← name) (← (← j.getObjVal? "value").getBool?))
+  | "set_element" => do pure (.setElement (← cls) (← name) (← decElem (← j.getObjVal? "elem")))
+  | "use" => do pure (.use (← cls))
+  | other => throw s!"unknown inherit op {other}"
+
+def allViews (w : World) : Json :=
+  Json.arr ((List.range w.classes.length).filterMap fun c => (w.viewElem c).map encElem).toArray
 
 def handle (req : Json) : R Json := do
   let op ← (← req.getObjVal? "op").getStr?
@@ -151,6 +202,24 @@ def handle (req : Json) : R Json := do
     match parseDoc cx root defs with
     | .error e => pure (Json.mkObj [("parse", "err"), ("kind", perrName e)])
     | .ok els => pure (Json.mkObj [("parse", "ok"), ("elems", Json.arr (els.map encElem).toArray)])
+  | "inherit_history" => do
+    let ops ← (← (← req.getObjVal? "ops").getArr?).toList.mapM decInheritOp
+    let (_, views) := ops.foldl (fun (st : World × List Json) op =>
+      let w := step st.1 op
+      (w, st.2 ++ [allViews w])) (World.init, [])
+    pure (Json.mkObj [("views", Json.arr views.toArray)])
+  | "inherit_flat" => do
+    -- a chain of class statements from Object, and the same as one statement
+    let decls ← (← (← req.getObjVal? "decls").getArr?).toList.mapM fun d => do
+      match ← decInheritOp d with
+      | .define _ decl => pure decl
+      | _ => throw "expected define"
+    let chain := decls.foldl inherit Cfg.object
+    let flat := match decls with
+      | [] => Cfg.object
+      | d :: ds => inherit Cfg.object (ds.foldl ClassDecl.andThen d)
+    let name := (decls.getLast?.map (·.name)).getD "Object"
+    pure (Json.mkObj [("chain", encElem (chain.toElem name)), ("flat", encElem (flat.toElem name))])
   | "attr_names" => do
     let tables ← getTables req
     let names ← (← (← req.getObjVal? "names").getArr?).toList.mapM (·.getStr?)
